@@ -204,6 +204,29 @@ theorem axl_eventually_served_crossbar (c : Cfg) (rd : Bool) (i j : Nat) (hi : i
   ⟨Crossbar.bounded_wait c rd i j hi hj ins s hg hreq,
    by have := RoundRobin.dist_lt c.n (Crossbar.arb s j).grant i (by omega); omega⟩
 
+/-- … hence after n-1 hand-over opportunities `i` owns slave `j`. -/
+theorem axl_served_within_crossbar (c : Cfg) (rd : Bool) (i j : Nat) (hi : i < c.n) (hj : j < c.m)
+    (s : XbDir) (hg : (Crossbar.arb s j).grant < c.n) (ins : List DirIn) (hreq : Crossbar.Requests c rd i j s ins)
+    (hmany : c.n - 1 ≤ Crossbar.handovers c rd i j s ins) :
+    (Crossbar.arb ((Crossbar.machine c rd).runFrom s ins) j).grant = i := by
+  obtain ⟨h1, h2⟩ := axl_eventually_served_crossbar c rd i j hi hj s hg ins hreq
+  have hfin : (Crossbar.arb ((Crossbar.machine c rd).runFrom s ins) j).grant < c.n := by
+    clear h1 h2 hmany hreq
+    induction ins generalizing s with
+    | nil => exact hg
+    | cons x xs ih =>
+      apply ih (Crossbar.next c rd s x)
+      rw [Crossbar.arb_next' c rd s x j hj]
+      exact Arb.next_grant_lt _ _ _ _ _ hg
+  exact RoundRobin.dist_eq_zero hfin hi (by omega)
+
+/-! ## Point-to-point -/
+
+/-- **`axl_p2p_transparent`** — `InterconnectPointToPoint` is wiring: the slave sees exactly what the master drives
+    and vice versa, in every cycle (so every handshake trivially reaches the one slave and its one master). -/
+theorem axl_p2p_transparent (x : DirIn) : (P2P.machine.out () x).toS 0 = x.ms 0 ∧ (P2P.machine.out () x).toM 0 = x.ss 0 :=
+  ⟨rfl, rfl⟩
+
 /-! ## Concrete instances: the hypotheses are satisfiable, and the excluded regions really fail -/
 
 /-- 2 masters, 2 slaves, 8-bit data, slave `j` owns the byte addresses with `a >> 1 = j` (harness map "cover"). -/
@@ -257,6 +280,33 @@ example : EnvAll (Shared.machine cfg22 false) cfg22 false (Shared.init cfg22 fal
     by_cases e : i = 0 <;> simp [xb, e] at h
   · intro j hj h
     by_cases e : j = 1 <;> simp [xb, e] at h
+
+/-- The same run on the crossbar (non-vacuity of `axl_route_crossbar_partial` / `axl_lock_held_crossbar`). -/
+example :
+    let M := Crossbar.machine cfg22 false
+    let s0 := Crossbar.init cfg22 false
+    let o0 := M.out s0 xa
+    let s1 := M.next s0 xa
+    let g1 := fifoNext cfg22 false Fifo.empty xa o0
+    let o1 := M.out s1 xb
+    mReq xa o0 0 = true ∧ sReq xa o0 1 = true ∧ sReq xa o0 0 = false ∧ g1 1 = [0] ∧ g1 0 = [] ∧
+    (Crossbar.arb s1 1).cnt = 1 ∧ (Crossbar.dcd s1 0).cnt = 1 ∧ (Crossbar.arb s1 0).cnt = 0 ∧
+    sRsp xb o1 1 = true ∧ mRsp xb o1 0 = true ∧ mRsp xb o1 1 = false ∧ (o1.toM 0).rPay = 3 := by
+  decide
+
+/-- Non-vacuity of `axl_eventually_served` / `axl_served_within`: master 1 presents an address while master 0
+    owns the idle bus — one hand-over opportunity (n-1 = 1), after which master 1 owns the bus. -/
+def xh : DirIn :=
+  { ms := fun i => if i = 1 then { aValid := true, aAddr := 0 } else {}, ss := fun _ => {} }
+
+example :
+    Shared.handovers cfg22 false 1 (Shared.init cfg22 false) [xh] = 1 ∧
+    ((Shared.machine cfg22 false).runFrom (Shared.init cfg22 false) [xh]).arb.grant = 1 ∧
+    (∀ x ∈ [xh], (x.ms 1).aValid = true) := by
+  refine ⟨by decide, by decide, ?_⟩
+  intro x hx
+  simp only [List.mem_singleton] at hx
+  subst hx; rfl
 
 /-! ### Negative witness 1 — known finding `C08-decoder-second-addr-other-slave`
 
